@@ -82,6 +82,8 @@ def run(ctx):
         for (kind, hs, spec), r in zip(G["sessions"], results):
             lab = dict(zip(r["labels"], r["digests"]))
             refe = lab.pop("refeed_equals_first", "equal")
+            if lab.pop("refeed_skipped_untrained_model", None):
+                ctx.cov["refeed_sessions_skipped_untrained_model"] = ctx.cov.get("refeed_sessions_skipped_untrained_model", 0) + 1
             cfg = "%s hashseed=%s workers=%s refeed=%s" % (kind, hs, spec.get("workers"), spec.get("refeed"))
             runs.append({"cfg": cfg, "raised": r["raised"] if r["raised"] else ("" if refe == "equal" else "refeed differs: " + refe),
                          "raised_type": (r["raised"].split(":")[0] if r["raised"] else ("" if refe == "equal" else "RefeedDiffers")),
